@@ -1,0 +1,99 @@
+// Copyright 2020-2025 Buf Technologies, Inc.
+//
+// Licensed under the Apache License, Version 2.0 (the "License");
+// you may not use this file except in compliance with the License.
+// You may obtain a copy of the License at
+//
+//      http://www.apache.org/licenses/LICENSE-2.0
+//
+// Unless required by applicable law or agreed to in writing, software
+// distributed under the License is distributed on an "AS IS" BASIS,
+// WITHOUT WARRANTIES OR CONDITIONS OF ANY KIND, either express or implied.
+// See the License for the specific language governing permissions and
+// limitations under the License.
+
+//go:build verif
+
+package bufanalysis
+
+// Contracts for the gocv verifier: C02, order of aggregated annotation output. Comment-only.
+// Spec functions k_*: /verif/specs/C02_order.spec; pathOf: /verif/specs/C20.spec; annLess / annSameKey: C02.spec.
+//
+// groupAnnotationsByPath (the JUnit test suites): the groups are a function of the input SEQUENCE only.
+// The key of an annotation is pathOf (ExternalPath of its FileInfo, "<input>" without FileInfo).
+//   k_firstIdx(annotations, n, key): index of the first of the first n annotations with that key (-1: none)
+//   k_countKey(annotations, n, key): how many of the first n annotations have that key
+//@ func groupAnnotationsByPath(annotations) (r)
+//@   property C02
+//@   reveal pathOf
+//@   use k_countKey-step, k_countKey-zero, k_firstIdx-step, k_firstIdx-zero
+//@   ensures groups-non-empty: forall g int :: 0 <= g && g < len(r) ==> len(r[g]) > 0
+//@   ensures group-shares-key: forall g int, a int :: 0 <= g && g < len(r) && 0 <= a && a < len(r[g]) ==> pathOf(r[g][a]) == pathOf(r[g][0])
+//@   ensures groups-distinct-keys: forall g int, h int :: 0 <= g && g < h && h < len(r) ==> pathOf(r[g][0]) != pathOf(r[h][0])
+//@   ensures group-starts-at-first-seen: forall g int :: 0 <= g && g < len(r) ==> 0 <= k_firstIdx(annotations, len(annotations), pathOf(r[g][0])) && k_firstIdx(annotations, len(annotations), pathOf(r[g][0])) < len(annotations) && r[g][0] == annotations[k_firstIdx(annotations, len(annotations), pathOf(r[g][0]))]
+//@   ensures nothing-earlier-has-key: forall g int, j int :: 0 <= g && g < len(r) && 0 <= j && j < k_firstIdx(annotations, len(annotations), pathOf(r[g][0])) ==> pathOf(annotations[j]) != pathOf(r[g][0])
+//@   ensures first-seen-order: forall g int, h int :: 0 <= g && g < len(r) && 0 <= h && h < len(r) ==> ((g < h) <==> (k_firstIdx(annotations, len(annotations), pathOf(r[g][0])) < k_firstIdx(annotations, len(annotations), pathOf(r[h][0]))))
+//@   ensures in-own-group: forall i int :: 0 <= i && i < len(annotations) ==> (exists g int :: 0 <= g && g < len(r) && pathOf(r[g][0]) == pathOf(annotations[i]) && k_countKey(annotations, i, pathOf(annotations[i])) < len(r[g]) && r[g][k_countKey(annotations, i, pathOf(annotations[i]))] == annotations[i])
+//@   ensures group-size: forall g int :: 0 <= g && g < len(r) ==> len(r[g]) == k_countKey(annotations, len(annotations), pathOf(r[g][0]))
+//@   canary ensures len(r) == 0
+//@   canary ensures len(r) == 1
+//@   loop 0 invariant idx-range: pathToIndex != nil && (forall k string :: k in pathToIndex ==> 0 <= pathToIndex[k] && pathToIndex[k] < len(annotationsByPath) && pathOf(annotationsByPath[pathToIndex[k]][0]) == k)
+//@   loop 0 invariant group-indexed: forall g int :: 0 <= g && g < len(annotationsByPath) ==> len(annotationsByPath[g]) > 0 && pathOf(annotationsByPath[g][0]) in pathToIndex && pathToIndex[pathOf(annotationsByPath[g][0])] == g
+//@   loop 0 invariant group-key: forall g int, a int :: 0 <= g && g < len(annotationsByPath) && 0 <= a && a < len(annotationsByPath[g]) ==> pathOf(annotationsByPath[g][a]) == pathOf(annotationsByPath[g][0])
+//@   loop 0 invariant unseen: forall k string :: !(k in pathToIndex) ==> k_countKey(annotations, $i, k) == 0 && k_firstIdx(annotations, $i, k) == 0 - 1
+//@   loop 0 invariant size: forall g int :: 0 <= g && g < len(annotationsByPath) ==> len(annotationsByPath[g]) == k_countKey(annotations, $i, pathOf(annotationsByPath[g][0]))
+//@   loop 0 invariant placed: forall j int :: 0 <= j && j < $i ==> pathOf(annotations[j]) in pathToIndex && k_countKey(annotations, j, pathOf(annotations[j])) < len(annotationsByPath[pathToIndex[pathOf(annotations[j])]]) && annotationsByPath[pathToIndex[pathOf(annotations[j])]][k_countKey(annotations, j, pathOf(annotations[j]))] == annotations[j]
+//@   loop 0 invariant first: forall k string :: k in pathToIndex ==> 0 <= k_firstIdx(annotations, $i, k) && k_firstIdx(annotations, $i, k) < $i && annotationsByPath[pathToIndex[k]][0] == annotations[k_firstIdx(annotations, $i, k)]
+//@   loop 0 invariant first-min: forall k string, j int :: k in pathToIndex && 0 <= j && j < k_firstIdx(annotations, $i, k) ==> pathOf(annotations[j]) != k
+//@   loop 0 invariant order: forall k1 string, k2 string :: k1 in pathToIndex && k2 in pathToIndex && pathToIndex[k1] < pathToIndex[k2] ==> k_firstIdx(annotations, $i, k1) < k_firstIdx(annotations, $i, k2)
+//
+// ---- de-duplication + sort (file_annotation_set.go) ----
+// The sort adapter compares with the documented order (nil first), in the right direction.
+//@ func (a sortFileAnnotationSlice) Less(i, j) (r)
+//@   property C02
+//@   reveal k_annBefore
+//@   requires 0 <= i && i < len(a) && 0 <= j && j < len(a)
+//@   ensures documented-order: r <==> k_annBefore(a[i], a[j])
+//@   canary ensures r
+//
+// TRUSTED (in-repo one-liner `sort.Stable(sortFileAnnotationSlice(x))`: the engine cannot write the effect of
+// sort.Stable back through the slice conversion + interface boxing): x becomes a permutation of itself, ordered by the
+// adapter's Less (= k_annBefore, verified above). The permutation is the bijection k_sortedFrom / k_sortedTo on [0, len).
+//@ trusted func sortFileAnnotations(fileAnnotations)
+//@   modifies fileAnnotations
+//@   ensures len(fileAnnotations) == len(old(fileAnnotations))
+//@   ensures forall i int, j int :: 0 <= i && i < j && j < len(fileAnnotations) ==> !k_annBefore(fileAnnotations[j], fileAnnotations[i])
+//@   ensures forall i int :: 0 <= i && i < len(fileAnnotations) ==> 0 <= k_sortedFrom(old(fileAnnotations), i) && k_sortedFrom(old(fileAnnotations), i) < len(fileAnnotations) && fileAnnotations[i] == old(fileAnnotations)[k_sortedFrom(old(fileAnnotations), i)] && k_sortedTo(old(fileAnnotations), k_sortedFrom(old(fileAnnotations), i)) == i
+//@   ensures forall j int :: 0 <= j && j < len(fileAnnotations) ==> (exists i int :: 0 <= i && i < len(fileAnnotations) && fileAnnotations[i] == old(fileAnnotations)[j])
+//@   ensures forall j int :: 0 <= j && j < len(fileAnnotations) ==> 0 <= k_sortedTo(old(fileAnnotations), j) && k_sortedTo(old(fileAnnotations), j) < len(fileAnnotations) && k_sortedFrom(old(fileAnnotations), k_sortedTo(old(fileAnnotations), j)) == j
+//
+// The de-duplication key: every identifying field of the annotation, each in its own struct field (external path "" without FileInfo).
+//@ pure func newFileAnnotationKey(fileAnnotation) (r)
+//@   property C02
+//@   reveal pathKey
+//@   ensures fields: r.externalPath == pathKey(fileAnnotation) && r.startLine == fileAnnotation.StartLine() && r.startColumn == fileAnnotation.StartColumn() && r.endLine == fileAnnotation.EndLine() && r.endColumn == fileAnnotation.EndColumn() && r.typ == fileAnnotation.Type() && r.message == fileAnnotation.Message()
+//
+// deduplicateAndSortFileAnnotations: what `buf lint` / `buf breaking` print. The result is sorted by the documented
+// order and holds no two annotations with the same identifying fields; nothing but repetitions is dropped, so the
+// result is the same whatever order the annotations were collected in (they come from concurrent plugin jobs).
+//@ func deduplicateAndSortFileAnnotations(fileAnnotations) (r)
+//@   property C02
+//@   use k_samekey-samededupkey, k_samededupkey-samekey, cmp-total
+//@   reveal k_annBefore
+// newFileAnnotationKey dereferences every annotation
+//@   requires non-nil: forall i int :: 0 <= i && i < len(fileAnnotations) ==> fileAnnotations[i] != nil
+// a FileInfo names a file: its external path is not empty (otherwise it would share the key "" with an annotation that has
+// no FileInfo, which the documented order tells apart)
+//@   requires external-paths-non-empty: forall i int :: 0 <= i && i < len(fileAnnotations) && fileAnnotations[i].FileInfo() != nil ==> fileAnnotations[i].FileInfo().ExternalPath() != ""
+//@   ensures only-inputs: forall a int :: 0 <= a && a < len(r) ==> (exists i int :: 0 <= i && i < len(fileAnnotations) && fileAnnotations[i] == r[a])
+//@   ensures no-duplicates: forall a int, b int :: 0 <= a && a < b && b < len(r) ==> !annSameKey(r[a], r[b])
+//@   ensures strictly-sorted: forall a int, b int :: 0 <= a && a < b && b < len(r) ==> annLess(r[a], r[b])
+// every input annotation is still there, up to an annotation with the same identifying fields: nothing but exact repetitions is dropped
+//@   ensures distinct-annotations-kept: forall i int :: 0 <= i && i < len(fileAnnotations) ==> (exists a int :: 0 <= a && a < len(r) && annSameKey(r[a], fileAnnotations[i]))
+//@   canary ensures len(r) == len(fileAnnotations)
+//@   canary ensures len(r) <= 1
+//@   loop 0 invariant seen-keys: seen != nil && (forall k fileAnnotationKey :: k in seen ==> (exists a int :: 0 <= a && a < len(deduplicated) && newFileAnnotationKey(deduplicated[a]) == k))
+//@   loop 0 invariant kept-seen: forall a int :: 0 <= a && a < len(deduplicated) ==> newFileAnnotationKey(deduplicated[a]) in seen
+//@   loop 0 invariant from-input: forall a int :: 0 <= a && a < len(deduplicated) ==> (exists i int :: 0 <= i && i < $i && fileAnnotations[i] == deduplicated[a])
+//@   loop 0 invariant visited-seen: forall i int :: 0 <= i && i < $i ==> newFileAnnotationKey(fileAnnotations[i]) in seen
+//@   loop 0 invariant distinct-keys: forall a int, b int :: 0 <= a && a < b && b < len(deduplicated) ==> newFileAnnotationKey(deduplicated[a]) != newFileAnnotationKey(deduplicated[b])
